@@ -22,6 +22,7 @@ def run(chk):
     from .c16 import r16b
 
     r16b(chk, 'R03.e')
+    r03f(chk)
 
 
 def raw_allowed(nfa_node):
@@ -201,3 +202,115 @@ def r03d(chk, rid='R03.d'):
         chk.ob(rid, SER, 'CSSSerializer', f'{name} exists (used in {sorted(used[name])[0]})', name in have, 'a DOM class serialises through a method that does not exist: AttributeError at cssText')
     # unused do_* methods are dead code, not a violation of the property: recorded only
     chk.extra['unused_serializer_methods'] = sorted(have - set(used))
+
+
+STRING_TOKENS = ('"plain"', "'plain'", '"say \\"hi\\""', "'it\\'s'", '"it\'s"', "'a\"b'", '""')
+
+
+def _ref_string_decode(t):
+    """CSS 2.1 4.3.7: the value of a string token is what stands between the quotes, an escaped
+    quote character standing for itself (other escapes are kept as they are by this library)."""
+    q = t[0]
+    return t[1:-1].replace('\\' + q, q)
+
+
+def string_callbacks(chk):
+    """(rel, owner, callback target, kind) of every production callback registered for STRING tokens."""
+    from .callbacks import callbacks
+
+    return [cb for cb in callbacks(chk.repo)[1] if cb.key == 'STRING' and isinstance(cb.target, ast.FunctionDef)]
+
+
+def r03f(chk, rid='R03.f'):
+    chk.rule(rid, 'STRING tokens are decoded where they are stored and re-encoded where they are written, decided by evaluation: (1) Base._stringtokenvalue is evaluated on quoted tokens with escaped quotes of both kinds and gives the text between the quotes with the escaped quote resolved; (2) every production callback registered for STRING tokens (found in the dispatch tables of the _parse sites and of New.productions) is evaluated, inside its enclosing function, on those tokens for every expectation it accepts: the value it appends to the sequence is the decoded value; (3) for the selector handler the stored item is written by CSSSerializer.do_css_Selector through the source\'s own Out.append and helper.string: the text is one STRING token of the reader (automaton of the STRING production) and decodes to the same value')
+    chk.assume('R03.f: the tokenizer, logging and the parse loop are stubs; a callback is run with each expectation string that occurs as a literal in its enclosing function')
+    from sa.absint import Evaluator, Obj, Raised, Record
+
+    from .c06 import out_model
+    from .tables import TokTables
+
+    um = chk.repo.mod('cssutils/util.py')
+    dec = um.get('Base._stringtokenvalue')
+
+    def decode(tok):
+        return Evaluator(dec, module=um, cls='Base').run(self=Record(), token=tok)
+
+    for t in STRING_TOKENS:
+        got = decode(('STRING', t, 1, 1))
+        chk.ob(rid, 'cssutils/util.py', 'Base._stringtokenvalue', f'{t} decodes to the text between the quotes, escaped quote resolved', got == _ref_string_decode(t), f'gives {got!r}, expected {_ref_string_decode(t)!r}')
+
+    tt = TokTables(chk.repo)
+    string_nfa = tt.nfa('STRING')
+    serm = chk.repo.mod(SER)
+    hm = chk.repo.mod(HELPER)
+    cbs = string_callbacks(chk)
+    if len(cbs) < 4:
+        raise AnalysisError(f'only {len(cbs)} STRING callbacks found (4 confirmed by hand)')
+    n = 0
+    for cb in cbs:
+        m = chk.repo.mod(cb.rel)
+        cls = cb.owner.split('.')[0]
+        outer = m.get(cb.owner)
+        appended = []
+
+        class Seq(list):
+            def append(self, val, typ=None, line=None, col=None, **k):  # noqa: A003
+                appended.append((val, typ))
+
+        log = Record(error=lambda *a, **k: None, warn=lambda *a, **k: None, info=lambda *a, **k: None, debug=lambda *a, **k: None)
+        if cb.owner == 'New.productions':
+            # a method of the selector's helper class: run it directly in the contexts that accept a string
+            sel = Record(_type=lambda tok: tok[0], _tokenvalue=lambda tok, normalize=False: tok[1], _stringtokenvalue=decode)
+            cases = []
+            for ctx, exp in (('attrib', 'value'), ('pseudo-class', 'expression')):
+                for t in STRING_TOKENS:
+                    del appended[:]
+                    me = Record(context=[ctx], selector=sel, wellformed=True, _log=log)
+                    me.append = lambda seq, v, typ=None, token=None: appended.append((v, typ))
+                    res = Evaluator(cb.target, intrinsics={'self._log.error': log.error}, module=m, cls='New').run(self=me, expected=exp, seq=[], token=('STRING', t, 1, 1))
+                    cases.append((f'{ctx}', t, res, list(appended)))
+        else:
+            exps = sorted({c.value for c in ast.walk(outer) if isinstance(c, ast.Constant) and isinstance(c.value, str) and 0 < len(c.value) < 30 and not c.value[0].isupper()} | {'EOF'})
+            cases = []
+
+            def driver(expected, seq, tokenizer, productions, default=None, **kw):
+                fn = dict(productions).get('STRING')
+                if fn is None:
+                    return True, expected
+                for exp in exps:
+                    for t in STRING_TOKENS:
+                        del appended[:]
+                        res = fn(exp, Seq(), ('STRING', t, 1, 1), tokenizer)
+                        cases.append((exp, t, res, list(appended)))
+                return True, expected
+
+            me = Obj(_tokenize2=lambda t: 'TOKENIZER', _nexttoken=lambda *a, **k: ('AT', '@x', 1, 1), _type=lambda tok: 'AT', _tokenvalue=lambda tok, normalize=False: tok[1],
+                     _stringtokenvalue=decode, _uritokenvalue=lambda tok: tok[1], _valuestr=lambda t: t, _log=log, _tempSeq=lambda: Seq(), _setSeq=lambda s: None,
+                     _prods=Record(IMPORT_SYM='AT', NAMESPACE_SYM='AT', ATKEYWORD='AT', STRING='STRING', URI='URI', IDENT='IDENT'), _checkReadonly=lambda: None,
+                     _parentStyleSheet=None, parentStyleSheet=None, parentRule=None, _namespaceURI=None, _prefix=None, atkeyword=None)
+            intr = {'super': lambda *a: Record(_setCssText=lambda t: None), 'self._parse': driver, 'self._log.error': log.error, 'self._log.warn': log.warn, 'self._log.info': log.info,
+                    'xml': Record(dom=Record(InvalidModificationErr='InvalidModificationErr', SyntaxErr='SyntaxErr', NamespaceErr='NamespaceErr', HierarchyRequestErr='HierarchyRequestErr', NoModificationAllowedErr='NoModificationAllowedErr'))}
+            try:
+                Evaluator(outer, intrinsics=intr, module=m, cls=cls, attr_ok=lambda *a: True).run(self=me, cssText='text')
+            except Exception as e:  # the prologue/epilogue models are loose; only the callback runs count
+                if not cases:
+                    raise AnalysisError(f'{cb.rel}:{cb.owner}: evaluation up to _parse failed: {e!r}')
+        stored = [(exp, t, ap) for exp, t, res, ap in cases if ap and not isinstance(res, Raised)]
+        if not stored:
+            raise AnalysisError(f'{cb.rel}:{cb.qual}: the STRING callback stored nothing in any of {len(cases)} evaluated cases')
+        bad = [(exp, t, ap) for exp, t, ap in stored if [v for v, typ in ap] != [_ref_string_decode(t)] * len(ap)]
+        n += len(stored)
+        chk.ob(rid, cb.rel, cb.qual, f'the value stored for a STRING token is the decoded string ({len(stored)} cases)', not bad,
+               '; '.join(f'{t} (expected {exp!r}) is stored as {[v for v, _ in ap]!r}' for exp, t, ap in bad[:2]) + ': the writer quotes and escapes the stored value again, so the text written differs from the text read')
+        if cb.owner == 'New.productions':
+            for ctx, t, res, ap in cases:
+                if not ap or isinstance(res, Raised):
+                    continue
+                v, typ = ap[0]
+                prefs = Record(spacer=' ', selectorCombinatorSpacer=' ', keepComments=True, indentClosingBrace=False, listItemSpacer=' ', propertyNameSpacer=' ', paranthesisSpacer=' ', lineSeparator='\n', minimizeColorHash=True)
+                ser = Record(prefs=prefs, _level=0)
+                selector = Record(wellformed=True, seq=[Record(type=typ, value=v)], _namespaces=Record(get=lambda k, d=None: None, prefixForNamespaceURI=lambda u: 'p'))
+                got = Evaluator(serm.get('CSSSerializer.do_css_Selector'), intrinsics={'Out': lambda s: out_model(chk, s), 'cssutils': Record(_ANYNS='ANY')}, module=serm, cls='CSSSerializer').run(self=ser, selector=selector)
+                ok = isinstance(got, str) and rx.accepts(string_nfa, got) and decode(('STRING', got, 1, 1)) == _ref_string_decode(t)
+                chk.ob(rid, cb.rel, cb.qual, f'{t} in context {ctx} is written as one STRING token with the same value', ok, f'written as {got!r}')
+    chk.extra['string_callback_cases'] = n
